@@ -242,7 +242,11 @@ def main(argv=None):
             # retry once with the thorough budget before calling it a regression
             obs_r = [o for n in regress for o in groups[n.split(' (')[0]]['obs']]
             if len(regress) <= 6:
-                res_r = solve.discharge(obs_r, max(60, timeout_s * 3))
+                # (the first pass already included the patient second pass: this retry is one more pass at a moderate budget)
+                for o_ in obs_r:
+                    if getattr(o_, 'timeout', None):
+                        o_.timeout = min(o_.timeout * 1.5, 90)
+                res_r = solve.discharge(obs_r, max(30, timeout_s * 2), second_pass=False)
                 still = set(o.name for o, r in zip(obs_r, res_r) if r['status'] != 'proved')
             else:
                 # many ledger obligations undecided at once on an edited file: the first pass (with its own patient retry)
